@@ -7,6 +7,12 @@ Core Lean only (no Mathlib) so that the driver starts fast.
 -/
 namespace SFV
 
+/-- an operation parameter: a number, or `k * q[m].par` (measured parameter of mode `m`) -/
+inductive Par
+  | num (q : Rat)
+  | meas (m : Nat) (k : Rat)
+deriving DecidableEq, Repr, Inhabited
+
 /-- A command of a circuit.  `id` is the identity of the Python `Command` object,
 `regs` is `cmd.reg` (ordered), `deps` the indices in `cmd.op.measurement_deps`. -/
 structure Cmd where
@@ -15,6 +21,10 @@ structure Cmd where
   regs : List Nat := []
   deps : List Nat := []
   marked : Bool := false
+  pars : List Par := []
+  dagger : Bool := false
+  /-- post-selection / dark-count options of a measurement (encoded as rationals), `none` = absent -/
+  sel : Option (List Rat) := none
 deriving DecidableEq, Repr, Inhabited
 
 /-- `Command.get_dependencies` as a list of subsystem indices (set semantics). -/
